@@ -19,3 +19,23 @@ Proof. reflexivity. Qed.
 Example tie_resolver_ops : gen_resolver_ops = Algebra.resolver_ops. Proof. reflexivity. Qed.
 Example tie_binary_symbols : gen_binary_symbols = Lazy.binary_symbols. Proof. reflexivity. Qed.
 Example tie_unary_symbols : gen_unary_symbols = Lazy.unary_symbols. Proof. reflexivity. Qed.
+
+(* T5: the TRANSFORMS registry: every name the model's evaluator knows (Eval.stateful_names,
+   Eval.function_names) and the object it is bound to -- aliases are bindings to the same object *)
+Example tie_transform_registry :
+  gen_transform_registry =
+  [("B", "binary"); ("C", "C"); ("I", "I"); ("S", "S"); ("T", "T"); ("binary", "binary");
+   ("bs", "BSpline"); ("center", "Center"); ("offset", "offset"); ("p", "proportion");
+   ("poly", "Polynomial"); ("prop", "proportion"); ("proportion", "proportion"); ("scale", "Scale");
+   ("standardize", "Scale")].
+Proof. reflexivity. Qed.
+Example tie_S_T_bodies : gen_S_encoding = "Sum" /\ gen_T_encoding = "Treatment".
+Proof. split; reflexivity. Qed.
+(* T6: configuration fields, encodings, accepted na_action values *)
+Example tie_config_fields :
+  gen_config_fields = [("EVAL_UNSEEN_CATEGORIES", ["error"; "warning"; "silent"])].
+Proof. reflexivity. Qed.
+Example tie_encodings : gen_encodings = [("Treatment", "Treatment"); ("Sum", "Sum")].
+Proof. reflexivity. Qed.
+Example tie_na_actions : gen_na_actions = ["drop"; "error"; "pass"].
+Proof. reflexivity. Qed.
